@@ -6,6 +6,7 @@ import (
 	"fmt"
 	"io"
 	"runtime/metrics"
+	"time"
 
 	"github.com/gorilla/websocket"
 	"pgregory.net/rapid"
@@ -41,6 +42,12 @@ type LimitCase struct {
 	Reads  []RStep  `json:"reads"`  // one per within-limit message (cycled)
 	Over   *OverMsg `json:"over,omitempty"`
 	Chunks []int    `json:"chunks,omitempty"`
+	// ReLimit: the ping handler calls SetReadLimit(L) again (same L, possibly
+	// in the middle of a fragmented message): nothing may change.
+	ReLimit bool `json:"relimit,omitempty"`
+	// StaleWriteDeadline: the application set a write deadline (for its own
+	// messages) that has passed long ago; automatic replies are not subject to it.
+	StaleWriteDeadline bool `json:"stale_write_deadline,omitempty"`
 }
 
 func genLimitCase(t *rapid.T) LimitCase {
@@ -129,6 +136,8 @@ func genLimitCase(t *rapid.T) LimitCase {
 		c.Over = o
 	}
 	c.Chunks = genChunks(t, "chunks", 800)
+	c.ReLimit = rapid.IntRange(0, 2).Draw(t, "relimit") == 0
+	c.StaleWriteDeadline = rapid.IntRange(0, 3).Draw(t, "stale_wdl") == 0
 	return c
 }
 
@@ -268,6 +277,14 @@ func checkC06(c LimitCase, o *Obs) error {
 	tr.SetInput(wire, c.Chunks)
 	tr.EndErr = xport.ErrInjected
 	h := &handlerLog{failAt: -1}
+	if c.ReLimit && (c.Over == nil || c.Over.Kind != "withinbig") {
+		h.onPing = func() { conn.SetReadLimit(L) }
+		o.ClassIf(len(pings) > 0 || (c.Over != nil && c.Over.Ping), "limit_set_again_from_ping_handler")
+	}
+	if c.StaleWriteDeadline {
+		conn.SetWriteDeadline(time.Now().Add(-time.Hour))
+		o.Class("stale_write_deadline")
+	}
 	h.install(conn)
 
 	lens := make([]int, len(model.Msgs))
